@@ -190,6 +190,11 @@ def make_pairing_data(i, conn, opt):
         d["AccessoryAddress"] = "AA:BB:CC:00:11:%02X" % i
     if opt & 2:
         d["extra-field"] = {"nested": [1, 2, "ü"]}
+    if opt & 4 and i > 0:
+        # the same accessory paired under a second controller identity (or an entry left behind by an earlier pairing): same accessory id
+        # and long-term key as the first entry of the set, own controller identity
+        d["AccessoryPairingID"] = "%02X:22:33:44:55:%02X" % (16, 0)
+        d["AccessoryLTPK"] = (bytes([1, 1]) * 16).hex()
     return d
 
 
@@ -248,12 +253,16 @@ def run_crash(case, R):
         effects = list(mon.effects)
         if len(mon.unflushed_before) != len(effects):
             raise HarnessError(f"effect bookkeeping: {len(mon.unflushed_before)} crash points for {len(effects)} effects")
+        try:
+            got = load_set(path)
+        except Exception as e:  # noqa: BLE001
+            R.fail("C20.pairings-roundtrip", f"after an uninterrupted save of {sorted(new)} over {sorted(old)}: load_data raised {type(e).__name__}: {e}")
+            return
+        if got != norm_set(new):
+            R.fail("C20.pairings-roundtrip", f"after an uninterrupted save of {sorted(new)} over {sorted(old)}: loaded {got!r:.300} expected {norm_set(new)!r:.300}")
+            return
         if not any(e[0] == "write" for e in effects):
             raise HarnessError(f"no write effect observed in {effects}")
-        got = load_set(path)
-        if got != norm_set(new):
-            R.fail("C20.pairings-roundtrip", f"after an uninterrupted save: loaded {got!r:.300} expected {norm_set(new)!r:.300}")
-            return
         # crash before effect i, with every possible number of buffered bytes already spilled to the OS
         points = []
         for i in range(len(effects)):
@@ -461,6 +470,75 @@ def run_ble_state(case, R):
         shutil.rmtree(d, ignore_errors=True)
 
 
+def run_ip_config(case, R):
+    """A running IP pairing on a file cache learns new configuration numbers from discovery updates (and re-reads the accessory
+    database, which may have changed); a restarted process restores what the running one held."""
+    import dataclasses
+
+    from props._recon import description
+    from vlib.ipworld import IpWorld
+    R.nt(len(case["steps"]) >= 1)
+    R.cls("ip-config-change", f"steps={len(case['steps'])}")
+    d = workdir()
+
+    async def main(loop):
+        loc = pathlib.Path(d) / "cache.json"
+        w = IpWorld(loop, k=case.get("k", 0))
+        try:
+            w.controller._char_cache = CharacteristicCacheFile(loc)
+            p = IpPairing(w.controller, dict(w.pairing_data))
+            try:
+                if case.get("first_contact", True):
+                    await p.list_accessories_and_characteristics()
+                for cn, value in case["steps"]:
+                    if value is not None:                     # the accessory's database changes together with its configuration number
+                        for a_ in w.acc.db["accessories"]:
+                            for s_ in a_["services"]:
+                                for c_ in s_["characteristics"]:
+                                    if c_.get("format") == "string" and "pr" in c_.get("perms", []):
+                                        c_["value"] = value
+                    p._async_description_update(dataclasses.replace(description(["10.0.0.5"], 51826, 1), config_num=cn, id=w.pairing_data["AccessoryPairingID"].lower()))
+                    await asyncio.sleep(2)
+                    await vtime.settle(loop)
+                if p.accessories is None:
+                    return None
+                before = (model_view(p.accessories), p.config_num)
+                p2 = IpPairing(_Ctl(CharacteristicCacheFile(loc)), dict(w.pairing_data))
+                after = (model_view(p2.accessories), p2.config_num) if p2.accessories is not None else None
+                return before, after
+            finally:
+                await p.shutdown()
+        finally:
+            w.restore()
+    try:
+        out = vtime.run(main)
+        if out is None:
+            return
+        before, after = out
+        if after is None:
+            R.fail("C20.cache-roundtrip", f"config numbers {case['steps']}: nothing restored from the cache file after restart", field="config_num")
+        elif before != after:
+            what = f"config number {before[1]} -> {after[1]}" if before[1] != after[1] else "entity map differs"
+            R.fail("C20.cache-roundtrip", f"IP pairing saw config numbers {case['steps']}; running process vs restarted process: {what}", field="config_num" if before[1] != after[1] else "other")
+    finally:
+        shutil.rmtree(d, ignore_errors=True)
+
+
+def enum_ip_config(tier):
+    yield {"steps": [[2, None]], "first_contact": True}
+    yield {"steps": [[2, "new name"]], "first_contact": True}
+    yield {"steps": [[1, None]], "first_contact": False}
+    yield {"steps": [[3, "x"], [3, None], [7, "y"]], "first_contact": True}
+    yield {"steps": [[5, None], [2, "older number"]], "first_contact": False}
+
+
+@st.composite
+def ip_config_cases(draw):
+    n = draw(st.integers(1, 4))
+    return {"steps": [[draw(st.sampled_from([1, 2, 3, 5, 9, 255, 65535])), draw(st.sampled_from([None, None, "a", "ü"]))] for _ in range(n)],
+            "first_contact": draw(st.booleans()), "k": draw(st.integers(0, 5))}
+
+
 @st.composite
 def ble_state_cases(draw):
     g0 = draw(st.sampled_from([1, 2, 900, 65534, 65535]))
@@ -537,7 +615,7 @@ CONNS = st.sampled_from(["IP", "IP", "CoAP", "BLE", None])
 def pairing_sets(draw, min_size=0):
     n = draw(st.integers(min_size, 4))
     aliases = draw(st.lists(ALIASES, min_size=n, max_size=n, unique=True))
-    return [[a, draw(CONNS), draw(st.integers(0, 3))] for a in aliases]
+    return [[a, draw(CONNS), draw(st.sampled_from([0, 1, 2, 3, 0, 1, 2, 3, 4, 5, 6, 7]))] for a in aliases]
 
 
 @st.composite
@@ -620,7 +698,8 @@ def enum_fixtures(tier):
 
 
 def enum_crash(tier):
-    sets = [[], [["a", "IP", 0]], [["Küche", "BLE", 2], ["b", "CoAP", 1]], [["a", "IP", 1], ["b", None, 0], ["日本", "BLE", 3]]]
+    sets = [[], [["a", "IP", 0]], [["Küche", "BLE", 2], ["b", "CoAP", 1]], [["a", "IP", 1], ["b", None, 0], ["日本", "BLE", 3]],
+            [["admin", "IP", 0], ["guest", "IP", 4], ["old", "IP", 5]]]
     for old in sets:
         for new in sets:
             yield {"old": old, "new": new, "old_exists": True}
@@ -655,6 +734,8 @@ SPEC = Property(
               n={"quick": 600, "thorough": 12000}, min_nontrivial=100),
         Layer("cache-fixtures", run_cache, enumerate=enum_fixtures, exhaustive=True, space="every tests/fixtures/*.json entity map"),
         Layer("cache-roundtrip", run_cache, strategy=cache_cases, n={"quick": 800, "thorough": 20000}, min_nontrivial=50),
+        Layer("ip-config-number-fixed", run_ip_config, enumerate=enum_ip_config, exhaustive=True, space="5 sequences of discovery updates with configuration numbers (database changing or not), with / without first contact"),
+        Layer("ip-config-number", run_ip_config, strategy=ip_config_cases, n={"quick": 150, "thorough": 3000}, min_nontrivial=20),
         Layer("ble-state-number-fixed", run_ble_state, enumerate=enum_ble_state, exhaustive=True, space="4 state-number sequences incl. the 65535 -> 1 roll-over, restart after every advertisement"),
         Layer("ble-state-number", run_ble_state, strategy=ble_state_cases, n={"quick": 200, "thorough": 4000}, min_nontrivial=20),
         Layer("cache-corrupt", run_corrupt_cache, strategy=corrupt_cases, n={"quick": 48, "thorough": 800}, min_nontrivial=10),
